@@ -161,6 +161,11 @@ def reset_complete(rep, prog, cls, reset_qn, rule, fields=None, ignore=()):
                         written.setdefault(nm, (fn, n['l']))
         for c in astu.calls(fn['body']):
             q = c['callee']['qn']
+            if q in ('std::fill', 'std::fill_n', 'std::memset', 'memset') or q.endswith('::fill') or q.endswith('::assign'):
+                # whole-array fills of a data member: std::fill(std::begin(m), std::end(m), v), m.fill(v), m.assign(n, v)
+                for x in astu.walk({'k': 'X', 'args': c.get('args', []), 'obj': c.get('obj')}):
+                    if x.get('k') == 'Member' and x.get('dk') == 'field' and x.get('base', {}).get('k') == 'This':
+                        written.setdefault(x['name'], (fn, c.get('l')))
             if c['callee'].get('method') and (c['callee'].get('cls', '') in [x[1] for x in allf] or
                                               c['callee'].get('cls') == cls):
                 st.extend(prog.fns(q))
